@@ -58,6 +58,16 @@ func genNasty(rng *rand.Rand) string {
 	case 2:
 		return genIPPortText(rng)
 	case 3:
+		if rng.IntN(3) == 0 {
+			// hosts-file lines: fields separated by blanks, names made of unusual bytes (Unicode
+			// space, NUL, controls), comments
+			l := genHostsLine(rng)
+			if rng.IntN(2) == 0 {
+				l = pick(rng, "1.2.3.4", "::1", "127.0.0.1 localhost", "fe80::1%eth0 a") + pick(rng, " ", "\t", "  ") +
+					pick(rng, "\u00a0", "\u0085", "\u3000", "\u2003", "a\u00a0b", "\x00", "\v", "\f", "\r", "\u00a0 \u00a0", "x \u1680") + pick(rng, "", " # c", " b", "\t")
+			}
+			return l
+		}
 		return genName(rng)
 	default:
 		s := nastyStrings[rng.IntN(len(nastyStrings))]
